@@ -875,6 +875,17 @@ class Parser:
         self, min_precedence: int = 0, exclude_in: bool = False
     ) -> Node:
         """Parse binary expression with operator precedence."""
+        # -a ** b is a SyntaxError in ECMAScript: the base of ** cannot be an
+        # unparenthesised unary expression (write (-a) ** b or -(a ** b))
+        unary_base = self._check(
+            TokenType.MINUS,
+            TokenType.PLUS,
+            TokenType.NOT,
+            TokenType.TILDE,
+            TokenType.TYPEOF,
+            TokenType.VOID,
+            TokenType.DELETE,
+        )
         left = self._parse_unary_expression()
 
         while True:
@@ -889,6 +900,12 @@ class Parser:
             precedence = PRECEDENCE.get(op, 0)
             if precedence < min_precedence:
                 break
+
+            if op == "**" and unary_base:
+                raise self._error(
+                    "Unary operator used immediately before exponentiation expression"
+                )
+            unary_base = False
 
             self._advance()
 
